@@ -306,6 +306,7 @@ impl Report {
         }
 
         let replay_dir = format!("{}/replays/{}", verif_dir(), self.prop);
+        let _ = std::fs::remove_dir_all(&replay_dir); // artefacts of earlier runs are stale
         let mut printed = 0;
         // group violations by (kind, normalised detail) so the first lines show distinct problems
         let mut groups: BTreeMap<(String, String), Vec<&Failure>> = BTreeMap::new();
